@@ -165,7 +165,7 @@ func checkHeadProgram(c *Ctx, p *mon.Prog, viaFacade int) {
 }
 
 func runC08(c *Ctx) {
-	if c.Case%4 == 0 {
+	if c.Case%2 == 0 {
 		runHistory(c, "C08")
 		c.Class("history_case")
 		return
@@ -222,7 +222,7 @@ func init() {
 		Cases:    func(t string) int { return map[string]int{"quick": 1600, "thorough": 60000}[t] },
 		Run:      runC08,
 		Directed: c08Directed,
-		Rule: "3 of 4 cases: 60 generated handler write programs (0-8 steps over set/add/del header, WriteHeader(code), Write(n), n in 0..4096) run under GET and HEAD on the same handler object through a wire-faithful recorder, plus reserved-method registrations; every 4th case: a Handle/Remove/Clean history with HEAD/GET/OPTIONS probes on every pool pattern after each step; " +
+		Rule: "odd cases: 60 generated handler write programs (0-8 steps over set/add/del header, WriteHeader(code), Write(n), n in 0..4096) run under GET and HEAD on the same handler object through a wire-faithful recorder, plus reserved-method registrations; even cases: a Handle/Remove/Clean history with HEAD/GET/OPTIONS probes on every pool pattern after each step; " +
 			"non-trivial (distinct by program text) = non-empty program",
 		Floors: func(t string) map[string]int64 {
 			if t == "quick" {
